@@ -86,6 +86,39 @@ func runC15(c *core.Ctx) error {
 	checkUntrustedSizes(c, r6, rt)
 	checkFreshVisitedSets(c, r6, rt, pkgGen)
 	checkErrorHandlerAfterEncoder(c, r6, ex)
+	// net/http panics on WriteHeader with a code outside 100..999 ("invalid WriteHeader code"): a constant
+	// status written by a generated response encoder must be a real status code
+	for _, fx := range ex.Fixtures {
+		pkg := ex.Prog.ByPath[fx.PkgPath]
+		if pkg == nil {
+			continue
+		}
+		n := 0
+		for _, top := range core.PkgFuncs(ex.Prog.SSA, pkg) {
+			if !strings.HasPrefix(top.Name(), "encode") {
+				continue
+			}
+			for _, fn := range core.AllFuncs(top) {
+				for _, call := range core.Calls(fn) {
+					cc := call.Common()
+					if !cc.IsInvoke() || cc.Method.Name() != "WriteHeader" || len(cc.Args) != 1 {
+						continue
+					}
+					k, ok := cc.Args[0].(*ssa.Const)
+					if !ok || k.Value == nil {
+						continue
+					}
+					n++
+					if code := k.Int64(); code < 100 || code > 599 {
+						r6.Fail("writeheader-invalid-constant", c.Pos(call.Pos()), fmt.Sprintf("%s/%s writes the constant status %d: net/http panics with \"invalid WriteHeader code\" and the request gets no answer (a response component shared between an explicit status code and `default` is generated once, without the status-code field)", fx.Name, top.Name(), code))
+					} else {
+						r6.Ob(true, "")
+					}
+				}
+			}
+		}
+		_ = n
+	}
 	return nil
 }
 
